@@ -17,6 +17,7 @@ import (
 	ad "github.com/pbenner/autodiff"
 	stat "github.com/pbenner/autodiff/statistics"
 	"github.com/pbenner/autodiff/statistics/generic"
+	"github.com/pbenner/autodiff/statistics/matrixDistribution"
 	"github.com/pbenner/autodiff/statistics/scalarDistribution"
 	"github.com/pbenner/autodiff/statistics/vectorDistribution"
 )
@@ -28,6 +29,7 @@ type Seq struct {
 	Em    [][]float64 `json:"em,omitempty"`    // table kind: emission probabilities [c][k]
 	X     []int       `json:"x,omitempty"`     // cat kind: observed symbols
 	Sets  [][][]int   `json:"sets,omitempty"`  // state-set sequences for Posterior
+	X2    [][]int     `json:"x2,omitempty"`    // mat / shape kinds: observed symbol vectors [k][d]
 }
 type Case struct {
 	Kind  string      `json:"kind"` // "table" | "cat" | "mixtable" | "mixcat"
@@ -47,6 +49,14 @@ type Case struct {
 	Sel [][]int   `json:"sel,omitempty"`
 	// bw: poison value of the reused work matrices (0: NaN, 1: 1.5)
 	Poison int `json:"poison,omitempty"`
+	// round 3 (ch.go): chmm / hhmm (Sub = "cat": through vectorDistribution.Chmm / Hhmm with
+	// categorical emissions, else generic.Hmm on emission tables), mat / shape
+	// (matrixDistribution.Hmm / ShapeHmm), pre (Posterior with out-of-range state indices)
+	Sub    string          `json:"sub,omitempty"`
+	Cons   [][][2]int      `json:"cons,omitempty"`   // chmm: equality constraints (groups of cells)
+	Tree   *TreeJ          `json:"tree,omitempty"`   // hhmm
+	Theta4 [][][][]float64 `json:"theta4,omitempty"` // mat / shape: [c][window row][coordinate][symbol]
+	ZSets  [][]int         `json:"zsets,omitempty"`  // pre
 }
 
 // ---------------------------------------------------------------- data records
@@ -146,7 +156,56 @@ func bitsOf(vs [][]float64) []int64 {
 type hmmObj struct {
 	g    *generic.Hmm
 	v    *vectorDistribution.Hmm
+	mh   *matrixDistribution.Hmm
+	sh   *matrixDistribution.ShapeHmm
 	kind string
+}
+
+// the public entry points of the wrapper that holds the model (vectorDistribution.Hmm / Chmm / Hhmm,
+// matrixDistribution.Hmm / ShapeHmm), else generic.Hmm on the data record
+func (o *hmmObj) doLogPdf(r ad.Scalar, rec generic.HmmDataRecord) error {
+	switch {
+	case o.v != nil:
+		return o.v.LogPdf(r, rec.(vectorDistribution.HmmDataRecord).X)
+	case o.mh != nil:
+		return o.mh.LogPdf(r, rec.(matrixDistribution.HmmDataRecord).X)
+	case o.sh != nil:
+		return o.sh.LogPdf(r, rec.(matrixDistribution.ShapeHmmDataRecord).X)
+	}
+	return o.g.LogPdf(r, rec)
+}
+func (o *hmmObj) doMarginals(rec generic.HmmDataRecord) ([]ad.Vector, error) {
+	switch {
+	case o.v != nil:
+		return o.v.PosteriorMarginals(rec.(vectorDistribution.HmmDataRecord).X)
+	case o.mh != nil:
+		return o.mh.PosteriorMarginals(rec.(matrixDistribution.HmmDataRecord).X)
+	case o.sh != nil:
+		return o.sh.PosteriorMarginals(rec.(matrixDistribution.ShapeHmmDataRecord).X.(ad.Matrix))
+	}
+	return o.g.PosteriorMarginals(rec)
+}
+func (o *hmmObj) doPosterior(r ad.Scalar, rec generic.HmmDataRecord, sets [][]int) error {
+	switch {
+	case o.v != nil:
+		return o.v.Posterior(r, rec.(vectorDistribution.HmmDataRecord).X, sets)
+	case o.mh != nil:
+		return o.mh.Posterior(r, rec.(matrixDistribution.HmmDataRecord).X, sets)
+	case o.sh != nil:
+		return o.sh.Posterior(r, rec.(matrixDistribution.ShapeHmmDataRecord).X.(ad.Matrix), sets)
+	}
+	return o.g.Posterior(r, rec, sets)
+}
+func (o *hmmObj) doViterbi(rec generic.HmmDataRecord) ([]int, error) {
+	switch {
+	case o.v != nil:
+		return o.v.Viterbi(rec.(vectorDistribution.HmmDataRecord).X)
+	case o.mh != nil:
+		return o.mh.Viterbi(rec.(matrixDistribution.HmmDataRecord).X)
+	case o.sh != nil:
+		return o.sh.Viterbi(rec.(matrixDistribution.ShapeHmmDataRecord).X.(ad.Matrix))
+	}
+	return o.g.Viterbi(rec)
 }
 
 func mkVec(real bool, v []float64) ad.Vector {
@@ -167,7 +226,12 @@ func mkMat(real bool, rows [][]float64) ad.Matrix {
 	return ad.NewDenseFloat64Matrix(flat, m, m)
 }
 
+func isCat(c Case) bool { return c.Kind == "cat" || c.Sub == "cat" }
+
 func build(c Case) (*hmmObj, error) {
+	if c.Kind == "chmm" || c.Kind == "hhmm" || c.Kind == "mat" || c.Kind == "shape" {
+		return buildCH(c)
+	}
 	pi := mkVec(c.Real, c.Pi)
 	tr := mkMat(c.Real, c.Tr)
 	o := &hmmObj{kind: c.Kind}
@@ -212,7 +276,10 @@ func build(c Case) (*hmmObj, error) {
 
 // emission probabilities [c][k] of a sequence
 func emTable(c Case, s Seq) [][]float64 {
-	if c.Kind == "cat" {
+	if c.Kind == "mat" || c.Kind == "shape" {
+		return emTableMat(c, s)
+	}
+	if isCat(c) {
 		em := make([][]float64, len(c.Theta))
 		for ci, th := range c.Theta {
 			em[ci] = make([]float64, s.N)
@@ -226,7 +293,10 @@ func emTable(c Case, s Seq) [][]float64 {
 }
 
 func (o *hmmObj) record(c Case, s Seq) generic.HmmDataRecord {
-	if c.Kind == "cat" {
+	if c.Kind == "mat" || c.Kind == "shape" {
+		return o.recordMat(c, s)
+	}
+	if isCat(c) {
 		x := make([]float64, s.N)
 		for k := range x {
 			x[k] = float64(s.X[k])
@@ -282,6 +352,16 @@ func observe(c Case) (obs HObs, err error) {
 	if e != nil {
 		return obs, e
 	}
+	return observeObj(o, c)
+}
+
+func observeObj(o *hmmObj, c Case) (obs HObs, err error) {
+	defer func() {
+		if r := recover(); r != nil {
+			err = fmt.Errorf("panic: %v", r)
+		}
+	}()
+	var e error
 	h := o.g
 	m := h.M
 	obs.Pi = make([]float64, m)
@@ -314,11 +394,7 @@ func observe(c Case) (obs HObs, err error) {
 		}
 		// LogPdf
 		r := ad.NewScalar(h.ScalarType(), 0.0)
-		if o.v != nil {
-			e = o.v.LogPdf(r, rec.(vectorDistribution.HmmDataRecord).X)
-		} else {
-			e = h.LogPdf(r, rec)
-		}
+		e = o.doLogPdf(r, rec)
 		if e != nil {
 			return obs, e
 		}
@@ -337,11 +413,7 @@ func observe(c Case) (obs HObs, err error) {
 		so.OA, so.OB = matKI(oa, m, n), matKI(ob, m, n)
 		// posterior marginals
 		var g []ad.Vector
-		if o.v != nil {
-			g, e = o.v.PosteriorMarginals(rec.(vectorDistribution.HmmDataRecord).X)
-		} else {
-			g, e = h.PosteriorMarginals(rec)
-		}
+		g, e = o.doMarginals(rec)
 		if e == nil {
 			so.MargOk = true
 			so.Marg = make([][]float64, n)
@@ -355,21 +427,13 @@ func observe(c Case) (obs HObs, err error) {
 		// posterior of state-set sequences
 		for _, sets := range s.Sets {
 			r := ad.NewScalar(h.ScalarType(), 0.0)
-			if o.v != nil {
-				e = o.v.Posterior(r, rec.(vectorDistribution.HmmDataRecord).X, sets)
-			} else {
-				e = h.Posterior(r, rec, sets)
-			}
+			e = o.doPosterior(r, rec, sets)
 			so.Post = append(so.Post, r.GetFloat64())
 			so.PostE = append(so.PostE, e != nil)
 		}
 		// Viterbi
 		var p []int
-		if o.v != nil {
-			p, e = o.v.Viterbi(rec.(vectorDistribution.HmmDataRecord).X)
-		} else {
-			p, e = h.Viterbi(rec)
-		}
+		p, e = o.doViterbi(rec)
 		if e != nil {
 			return obs, e
 		}
@@ -788,11 +852,15 @@ func emit(c Case, w *CaseWriter, key string) {
 		emitBW(c, w, key)
 		return
 	}
+	if c.Kind == "chmm" || c.Kind == "hhmm" || c.Kind == "pre" {
+		emitCH(c, w, key)
+		return
+	}
 	if isMix(c) {
 		obs, err := observeMix(c)
 		if err != nil {
 			w.Count("outcome:error/" + c.Kind)
-			w.Add("CM (mkMx [] [] [GErr] GErr [])", c, key, false)
+			w.Add("XC (CM (mkMx [] [] [GErr] GErr []))", c, key, false)
 			return
 		}
 		nz := 0
@@ -802,14 +870,14 @@ func emit(c Case, w *CaseWriter, key string) {
 			}
 		}
 		w.Count("kind:" + c.Kind)
-		w.Add(coqM(c, obs), c, key, nz >= 2)
+		w.Add("XC ("+coqM(c, obs)+")", c, key, nz >= 2)
 		return
 	}
 	obs, err := observe(c)
 	if err != nil {
 		w.Count("outcome:error/" + c.Kind)
 		w.Extra["last_error"] = err.Error()
-		w.Add(coqBroken(c), c, key, false)
+		w.Add("XC ("+coqBroken(c)+")", c, key, false)
 		return
 	}
 	w.Count("kind:" + c.Kind)
@@ -830,10 +898,10 @@ func emit(c Case, w *CaseWriter, key string) {
 			}
 		}
 	}
-	w.Add(coqH(c, obs), c, key, nontriv)
+	w.Add("XC ("+coqH(c, obs)+")", c, key, nontriv)
 }
 
-const hdr = "From Coq Require Import List ZArith QArith Floats. Import ListNotations.\nFrom ADV Require Import C15.Model C15.Corr.\nOpen Scope nat_scope.\n"
+const hdr = "From Coq Require Import List ZArith QArith Floats. Import ListNotations.\nFrom ADV Require Import C15.Model C15.ModelCH C15.Corr C15.CorrCH.\nOpen Scope nat_scope.\n"
 
 func main() {
 	o := ParseFlags()
@@ -852,14 +920,14 @@ func main() {
 		if err := json.Unmarshal(b, &rp); err != nil {
 			Die("%v", err)
 		}
-		w := NewCaseWriter(o.Out, "replay", hdr, "mism", 1000)
-		w.Type = "case"
+		w := NewCaseWriter(o.Out, "replay", hdr, "xmism", 1000)
+		w.Type = "xcase"
 		emit(rp.Case, w, "replay")
 		w.Flush()
 		return
 	}
-	w := NewCaseWriter(o.Out, "cases", hdr, "mism", 5)
-	w.Type = "case"
+	w := NewCaseWriter(o.Out, "cases", hdr, "xmism", 5)
+	w.Type = "xcase"
 	w.Rule = "random HMMs (1-4 states, sequence length 1-6, 1-3 sequences per model, probabilities k/16 with zeros, unnormalised rows, all-zero rows, nil/permuted/non-injective state maps, start/final restrictions incl. -1 and duplicates, emission tables or categorical emissions through vectorDistribution.Hmm, Float64 or Real64 parameters) and mixtures (1-4 components, table or categorical); an HMM case is non-trivial iff it has >= 2 states and a sequence of length >= 3 with positive likelihood, a mixture iff >= 2 non-zero weights; a Baum-Welch case (2-4 records of different lengths on one thread, both record orders, poisoned work memory) is non-trivial iff it has >= 2 states, a longer record directly before a shorter one and the step succeeds; distinct = distinct input"
 	corpus, _ := os.ReadFile(o.Extra)
 	if len(corpus) > 0 {
@@ -890,6 +958,24 @@ func main() {
 			c = reversedBW(c)
 		} else {
 			c = genHmm(r, w)
+		}
+		b, _ := json.Marshal(c)
+		emit(c, w, string(b))
+	}
+	// round 3: constrained / hierarchical HMMs, matrixDistribution.Hmm / ShapeHmm, Posterior precondition
+	rng3 := NewRng(o.Seed*1000003 + 15)
+	for k := 0; k < o.N*4/15; k++ {
+		r := rng3.Split()
+		var c Case
+		switch k % 8 {
+		case 0, 3, 6:
+			c = genChmm(r, w)
+		case 1, 4:
+			c = genHhmm(r, w)
+		case 2, 7:
+			c = genMat(r, w)
+		default:
+			c = genPre(r, w)
 		}
 		b, _ := json.Marshal(c)
 		emit(c, w, string(b))
